@@ -10,7 +10,7 @@ LEVEL = 'fault_enumeration'
 EXHAUSTIVE = False
 RULE = (
     'A deterministic virtual-time scenario (idle bus, backlog, handler mid-flight, handler awaiting a child on another '
-    'bus, forwarding, handlers running longer than the 15 s slow-handler monitor, actors that keep dispatching to the bus '
+    'bus, forwarding, handlers running longer than the 15 s slow-handler monitor, handlers wrapped in the library\'s @retry decorator with attempts left, actors that keep dispatching to the bus '
     'afterwards) plus an injection - stop(), stop(timeout=T), '
     'stop(clear=True) on a generated bus, or cancel-all-tasks-and-wait as asyncio.run() does at exit - fired before loop '
     'iteration k. A pilot run of the same scenario gives the iteration count K; Hypothesis draws scenario, kind and k '
@@ -35,6 +35,14 @@ KINDS = [
 @st.composite
 def _case(draw):
     sc = draw(scenario(P))
+    # some async handlers are wrapped in the library's own @retry decorator (it must not resurrect a handler that stop() cancelled)
+    if draw(st.integers(0, 3)) == 0:
+        hs = []
+        for h in sc['handlers']:
+            if h['kind'] == 'async' and draw(st.booleans()):
+                h = dict(h, kind='aretry', retry={'wait': draw(st.sampled_from([0.0, 0.05, 0.5])), 'retries': draw(st.integers(1, 3))})
+            hs.append(h)
+        sc['handlers'] = hs
     inj = dict(draw(st.sampled_from(KINDS)))
     if inj['kind'] == 'stop':
         inj['bus'] = draw(st.integers(0, len(sc['buses']) - 1))
@@ -80,11 +88,17 @@ BASE = [
      'handlers': [{'bus': 0, 'pat': 0, 'kind': 'async', 'prog': [['sleep', 16.0], ['sleep', 1.0]], 'ret': 'idx'}, {'bus': 0, 'pat': 0, 'kind': 'async', 'prog': [['sleep', 0.1]], 'ret': 'idx'}],
      'actors': [[['disp', 0, 0], ['disp', 0, 0], ['sleep', 18.0], ['disp', 0, 0]]],
      'maxdepth': 1, 'cap': 20, 'warm': False},
+    # handlers wrapped in @retry (retries left when the injection arrives), one of them awaiting a child, backlog, late dispatch
+    {'buses': [{'par': False, 'hist': None, 'rank': 1}, {'par': False, 'hist': None, 'rank': 2}], 'fwd': [],
+     'handlers': [{'bus': 0, 'pat': 0, 'kind': 'aretry', 'retry': {'wait': 0.05, 'retries': 2}, 'prog': [['sleep', 0.2], ['disp', 1, 1, 'await'], ['sleep', 0.1]], 'ret': 'idx'},
+                  {'bus': 1, 'pat': 1, 'kind': 'aretry', 'retry': {'wait': 0.0, 'retries': 1}, 'prog': [['sleep', 0.15]], 'ret': 'idx'}],
+     'actors': [[['disp', 0, 0], ['disp', 0, 0], ['sleep', 0.6], ['disp', 0, 0], ['disp', 1, 1]]],
+     'maxdepth': 2, 'cap': 20, 'warm': False},
 ]
 
 
 def enumerate_cases(tier, seed):
-    bases = [BASE[0], BASE[3]] if tier == 'quick' else BASE
+    bases = [BASE[0], BASE[3], BASE[4]] if tier == 'quick' else BASE
     for bi, base in enumerate(bases):
         pilot = run_scenario(dict(base))
         K = pilot['iters'] - pilot['iter0']
@@ -116,6 +130,8 @@ def run_case(sc):
     tr = out['trace']
     viol = []
     cl = ['inject:' + inj['kind'] + ('+timeout' if inj.get('timeout') else '') + ('+clear' if inj.get('clear') else '')]
+    if any(h.get('kind') == 'aretry' for h in sc['handlers']):
+        cl.append('retry-wrapped-handler')
     nontrivial = False
     sb = next((r for r in tr if r['k'] == 'inj-stop-begin'), None)
     se = next((r for r in tr if r['k'] == 'inj-stop-end'), None)
